@@ -3,7 +3,9 @@ package props
 import (
 	"encoding/json"
 	"fmt"
+	"os"
 	"os/exec"
+	"path/filepath"
 	"strings"
 	"time"
 
@@ -99,6 +101,8 @@ type c12Spec struct {
 	Post  []int        `json:"post,omitempty"`
 	Fault int          `json:"fault"`
 	CRLF  bool         `json:"crlf,omitempty"`
+	DashF bool         `json:"dash_f,omitempty"`  // the program is read from a file
+	Hash  bool         `json:"hashbang,omitempty"` // its first line is a #! comment
 	Prog  string       `json:"program,omitempty"`
 	Files []drive.File `json:"files,omitempty"`
 	Sels  []string     `json:"selectors,omitempty"`
@@ -176,7 +180,22 @@ func c12LinesCheck(c *fw.Ctx, s c12Spec, faults []c12Fault) *fw.Violation {
 // c12CLI: the binary's stderr shows the same line, caret and line number.
 func c12CLI(c *fw.Ctx, s c12Spec, faults []c12Fault) *fw.Violation {
 	src, line, f := c12Program(s, faults)
+	if s.Hash {
+		nl := "\n"
+		if s.CRLF {
+			nl = "\r\n"
+		}
+		src = "#!/usr/bin/env -S jqawk -f" + nl + src
+		line++
+	}
 	cmd := exec.Command(fw.JqawkBin(), src)
+	if s.DashF {
+		dir := c14Dirs(c)
+		pf := filepath.Join(dir, "c12-prog.jqawk")
+		os.WriteFile(pf, []byte(src), 0o644)
+		defer os.Remove(pf)
+		cmd = exec.Command(fw.JqawkBin(), "-f", pf)
+	}
 	_, stderr, exit, timedOut := runChild(c, cmd, "", 30*time.Second)
 	c.Evals++
 	c.Traces++
@@ -252,7 +271,7 @@ func init() {
 		ID: "C12",
 		Rule: fmt.Sprintf("programs of a function line, 'BEGIN {', a preset line, m lines before and n lines after one fault line, and '}', the other lines drawn from {blank, a comment with non-ASCII text, a string with a non-ASCII character, a tab-indented statement, a statement}, with LF and CRLF line ends; %d fault lines: ", nf) +
 			"an illegal character, a stray UTF-8 continuation byte and a stray 0x80 at every token boundary of a host line, non-ASCII characters used as identifiers, unexpected tokens, return / break out of place, assignment to a literal, and 21 single-line runtime faults each after 0-3 two-byte characters; " +
-			"oracle (computed from the text): the error kind, Line = the fault line's number, SrcLine = its text (with or without a trailing CR), Col inside the byte range of the offending construct (exactly the byte for an illegal character); the same through the binary's three-line diagnostic; " +
+			"oracle (computed from the text): the error kind, Line = the fault line's number, SrcLine = its text (with or without a trailing CR), Col inside the byte range of the offending construct (exactly the byte for an illegal character); the same through the binary's three-line diagnostic, with the program inline and read with -f, with and without a #! first line; " +
 			"and, for every failing program of the C11 fault x slot product and the seed splices, the general law that the quoted line is line N of the text; states = (kind, lines before, line ending)",
 		Plan: func(t fw.Tier) int { return nf + 1 },
 		Bound: func(t fw.Tier) string {
@@ -308,8 +327,13 @@ func init() {
 			}
 			for _, pre := range [][]int{{}, {1}, {2, 0}} {
 				for _, crlf := range []bool{false, true} {
-					s := c12Spec{Form: "cli", Pre: pre, Post: []int{4}, Fault: u, CRLF: crlf}
-					c.Do(func() any { return s }, func() *fw.Violation { return c12CLI(c, s, faults) })
+					for _, mode := range [][2]bool{{false, false}, {true, false}, {true, true}, {false, true}} {
+						if (mode[0] || mode[1]) && len(pre) == 1 {
+							continue
+						}
+						s := c12Spec{Form: "cli", Pre: pre, Post: []int{4}, Fault: u, CRLF: crlf, DashF: mode[0], Hash: mode[1]}
+						c.Do(func() any { return s }, func() *fw.Violation { return c12CLI(c, s, faults) })
+					}
 				}
 			}
 		},
